@@ -462,6 +462,18 @@ func (d *Datastore) TransactionSet(ctx context.Context, transactionId string, tr
 		return nil, err
 	}
 
+	// a dry run and a transaction that failed validation have not been applied: there is nothing to confirm or to
+	// roll back and no rollback timer was started. The transaction must not remain registered (the guard cleans
+	// it up), otherwise the datastore refuses every further transaction.
+	if dryRun {
+		return response, nil
+	}
+	for _, intentResponse := range response.GetIntents() {
+		if len(intentResponse.GetErrors()) > 0 {
+			return response, nil
+		}
+	}
+
 	// Mark the transaction as successfully committed
 	transactionGuard.Success()
 
